@@ -29,6 +29,13 @@ struct Throttle { enum { LIMIT=1500 }; std::unordered_map<u64,u32> n;
 	bool ok(u32 L,u32 form,u32 code){ u64 k=((u64)vf::g_crumb.op->id<<44) ^ ((u64)L<<40) ^ ((u64)form<<36) ^ code; u32& v=n[k]; if(v>=LIMIT) return false; ++v; return true; } };
 static thread_local Throttle g_thr;
 #define TFAIL(L,CLS,GOT,WANT) do{ std::string cls_=(CLS); if(g_thr.ok(L,2,(u32)std::hash<std::string>()(cls_))) c.fail(cls_,GOT,WANT); }while(0)
+// input-class histogram: same counts as Ctx::cls, but the map node is looked up once per (thread, operation, class literal)
+struct ClsCache { struct Slot { const char* name[8]; u64* cnt[8]; int n; }; std::vector<Slot> slots; vf::Ctx* owner=nullptr;
+	inline void hit(vf::Ctx& c,const char* name){ if(owner!=&c){ slots.assign(vf::registry().size(),Slot{}); owner=&c; } Slot& s=slots[vf::g_crumb.op->id];
+		for(int i=0;i<s.n;i++) if(s.name[i]==name){ ++*s.cnt[i]; return; }
+		u64* q=&c.cur().classes[name]; ++*q; if(s.n<8){ s.name[s.n]=name; s.cnt[s.n]=q; s.n++; } } };
+static thread_local ClsCache g_cls;
+#define CLS(NAME) g_cls.hit(c,NAME)
 static std::string vpre(int L,int form){ std::string p; if(L) p=L_(L)+":"; if(form) p+="scalar-multiple-form:"; return p; }
 
 // ---------------------------------------------------------------- type facts
@@ -41,8 +48,10 @@ template<class T> struct TI { enum { B=sizeof(T)*8, S=std::is_signed<T>::value }
 static bool r_ispow2(I a){ if(a<=0) return false; int n=0; for(int i=0;i<100;i++) n+=(int)((a>>i)&1); return n==1; }
 static I r_ceilpow2(I a){ I p=1; while(p<a) p<<=1; return p; }          // a >= 1 : smallest power of two >= a
 static I r_floorpow2(I a){ I p=1; while((p<<1)<=a) p<<=1; return p; }   // a >= 1 : largest power of two <= a
-static I r_floormul(I x,I m){ I r=x%m; if(r<0) r+=m; return x-r; }      // m > 0 : largest multiple of m <= x
+static inline I r_mod(I x,I m){ if(x==(I)(i32)x && m==(I)(i32)m) return (I)((i32)x%(i32)m); if(x==(I)(i64)x && m==(I)(i64)m) return (I)((i64)x%(i64)m); return x%m; }   // m > 0 (128-bit division only when needed)
+static I r_floormul(I x,I m){ I r=r_mod(x,m); if(r<0) r+=m; return x-r; }      // m > 0 : largest multiple of m <= x
 static I r_ceilmul(I x,I m){ I f=r_floormul(x,m); return f==x? x : f+m; }
+static inline void r_floorceil(I x,I m,I& f,I& c){ f=r_floormul(x,m); c= f==x? x : f+m; }
 template<class T> static int r_findNSB(T x,int n){ typedef typename std::make_unsigned<T>::type U; U u=(U)x; int cnt=0; for(int i=0;i<(int)TI<T>::B;i++) if((u>>i)&1){ if(++cnt==n) return i; } return -1; }
 
 // ================================================================= power-of-two family
@@ -98,10 +107,10 @@ template<class T,int F,int L> static glm::vec<L,T,glm::highp> p_callv(glm::vec<L
 	else { glm::vec<L,bool,glm::highp> b=glm::isPowerOfTwo(v); glm::vec<L,T,glm::highp> r; for(int i=0;i<L;i++) r[i]=(T)b[i]; return r; } }
 
 template<class T> struct InP { T v[4]; };
-template<class T,int F> static void kp(const InP<T>& in,vf::Ctx& c){ T x=in.v[0]; if(!p_dom<T,F>(x)){ c.cls("out-of-domain:not-judged"); return; }
-	I want,alt; p_want<T,F>(x,want,alt); if((I)x<0) c.cls("negative"); if(want!=alt) c.cls("tie:either-accepted"); if(r_ispow2((I)x<0? -(I)x:(I)x)) c.cls("power-input");
+template<class T,int F> static void kp(const InP<T>& in,vf::Ctx& c){ T x=in.v[0]; if(!p_dom<T,F>(x)){ CLS("out-of-domain:not-judged"); return; }
+	I want,alt; p_want<T,F>(x,want,alt); if((I)x<0) CLS("negative"); if(want!=alt) CLS("tie:either-accepted"); if(r_ispow2((I)x<0? -(I)x:(I)x)) CLS("power-input");
 	T got=p_call<T,F>(x); if((I)got!=want && (I)got!=alt){ u32 k=p_code<T,F>(x,(I)got); if(g_thr.ok(0,0,k)) c.fail(p_name(k),got,(T)want); } }
-template<class T,int F,int L> static void kpv1(const InP<T>& in,vf::Ctx& c){ glm::vec<L,T,glm::highp> v(1); for(int i=0;i<L;i++){ if(!p_dom<T,F>(in.v[i])){ c.cls("out-of-domain:not-judged"); return; } v[i]=in.v[i]; }
+template<class T,int F,int L> static void kpv1(const InP<T>& in,vf::Ctx& c){ glm::vec<L,T,glm::highp> v(1); for(int i=0;i<L;i++){ if(!p_dom<T,F>(in.v[i])){ CLS("out-of-domain:not-judged"); return; } v[i]=in.v[i]; }
 	glm::vec<L,T,glm::highp> g=p_callv<T,F,L>(v); for(int i=0;i<L;i++){ I want,alt; p_want<T,F>(in.v[i],want,alt); if((I)g[i]!=want && (I)g[i]!=alt){ u32 k=p_code<T,F>(in.v[i],(I)g[i]); if(g_thr.ok(L,0,k)) c.fail(vpre(L,0)+p_name(k),(T)g[i],(T)want); } } }
 template<class T,int F> static void kpv(const InP<T>& in,vf::Ctx& c){ kpv1<T,F,1>(in,c); kpv1<T,F,2>(in,c); kpv1<T,F,3>(in,c); kpv1<T,F,4>(in,c); }
 
@@ -110,20 +119,20 @@ enum { MF_IS, MF_NEXT, MF_PREV, MF_CEIL, MF_FLOOR, MF_ROUND };
 // domain: Multiple > 0 ("valid positive multiple"); the answer (for round: both neighbours) representable; for 32/64-bit signed types x != MIN
 // (its negation does not exist; 8/16-bit types are computed in int, where it does).
 template<class T,int F> static bool m_dom(T x,T m){ I X=(I)x, M=(I)m; if(M<=0) return false; if(F==MF_IS) return true; if(TI<T>::is_min(x) && sizeof(T)>=4) return false;
-	I f=r_floormul(X,M), c=r_ceilmul(X,M); if(F==MF_NEXT||F==MF_CEIL) return c<=TI<T>::hi(); if(F==MF_PREV||F==MF_FLOOR) return f>=TI<T>::lo(); return f>=TI<T>::lo() && c<=TI<T>::hi(); }
-template<class T,int F> static void m_want(T x,T m,I& want,I& alt){ I X=(I)x, M=(I)m; I f=r_floormul(X,M), c=r_ceilmul(X,M);
-	if(F==MF_IS){ want=alt=(X%M==0)?1:0; return; } if(F==MF_NEXT||F==MF_CEIL){ want=alt=c; return; } if(F==MF_PREV||F==MF_FLOOR){ want=alt=f; return; }
+	I f,c; r_floorceil(X,M,f,c); if(F==MF_NEXT||F==MF_CEIL) return c<=TI<T>::hi(); if(F==MF_PREV||F==MF_FLOOR) return f>=TI<T>::lo(); return f>=TI<T>::lo() && c<=TI<T>::hi(); }
+template<class T,int F> static void m_want(T x,T m,I& want,I& alt){ I X=(I)x, M=(I)m; I f,c; r_floorceil(X,M,f,c);
+	if(F==MF_IS){ want=alt=(r_mod(X,M)==0)?1:0; return; } if(F==MF_NEXT||F==MF_CEIL){ want=alt=c; return; } if(F==MF_PREV||F==MF_FLOOR){ want=alt=f; return; }
 	if(X-f<c-X) want=alt=f; else if(X-f>c-X) want=alt=c; else { want=f; alt=c; } }
 // code: bits 0-2 observed behaviour, 3-4 nearer (0 none,1 lower,2 upper), 5 exact, 6-7 source sign (0 zero,1 negative,2 positive)
 enum { MK_NONMULT_AS_MULT, MK_MULT_AS_NONMULT, MK_BELOW, MK_ABOVE, MK_TOO_LOW, MK_TOO_HIGH, MK_NOT_MULT, MK_WRONG_MULT };
-template<class T,int F> static u32 m_code(T x,T m,I got){ I X=(I)x, M=(I)m; I f=r_floormul(X,M), c=r_ceilmul(X,M);
+template<class T,int F> static u32 m_code(T x,T m,I got){ I X=(I)x, M=(I)m; I f,c; r_floorceil(X,M,f,c);
 	if(F==MF_IS) return got? MK_NONMULT_AS_MULT:MK_MULT_AS_NONMULT;
 	u32 p= (X==0? 0u : X<0? 1u : 2u)<<6; if(f==c) p|=32; if(F==MF_ROUND && f!=c) p|= ((X-f<c-X)? 1u:2u)<<3;
 	if(f!=c && got==f) return p|MK_BELOW;
 	if(f!=c && got==c) return p|MK_ABOVE;
 	if(got==f-M) return p|MK_TOO_LOW;
 	if(got==c+M) return p|MK_TOO_HIGH;
-	if(got%M!=0) return p|MK_NOT_MULT;
+	if(r_mod(got,M)!=0) return p|MK_NOT_MULT;
 	return p|MK_WRONG_MULT; }
 static std::string m_name(u32 code,bool is){ static const char* O[]={"non-multiple:reported-as-multiple","multiple:reported-as-non-multiple","returns-multiple-below","returns-multiple-above","returns-one-multiple-too-low","returns-one-multiple-too-high","result-not-a-multiple","wrong-multiple"};
 	if(is) return O[code&7]; static const char* S[]={"zero-source:","negative-source:","positive-source:",""}; static const char* Nn[]={"","nearer-to-lower:","nearer-to-upper:",""};
@@ -142,12 +151,12 @@ template<class T,int F,int L> static glm::vec<L,T,glm::highp> m_callvs(glm::vec<
 	else { glm::vec<L,bool,glm::highp> b=glm::isMultiple(x,m); glm::vec<L,T,glm::highp> r; for(int i=0;i<L;i++) r[i]=(T)b[i]; return r; } }
 
 template<class T> struct InM { T x[4]; T m[4]; };
-template<class T,int F> static void km(const InM<T>& in,vf::Ctx& c){ T x=in.x[0], m=in.m[0]; if(!m_dom<T,F>(x,m)){ c.cls("out-of-domain:not-judged"); return; }
-	I want,alt; m_want<T,F>(x,m,want,alt); if((I)x<0) c.cls("negative-source"); if((I)x==0) c.cls("zero-source"); if((I)x%(I)m==0) c.cls("exact-multiple"); if(want!=alt) c.cls("tie:either-accepted");
+template<class T,int F> static void km(const InM<T>& in,vf::Ctx& c){ T x=in.x[0], m=in.m[0]; if(!m_dom<T,F>(x,m)){ CLS("out-of-domain:not-judged"); return; }
+	I want,alt; m_want<T,F>(x,m,want,alt); if((I)x<0) CLS("negative-source"); if((I)x==0) CLS("zero-source"); if(r_mod((I)x,(I)m)==0) CLS("exact-multiple"); if(want!=alt) CLS("tie:either-accepted");
 	T got=m_call<T,F>(x,m); if((I)got!=want && (I)got!=alt){ u32 k=m_code<T,F>(x,m,(I)got); if(g_thr.ok(0,0,k)) c.fail(m_name(k,F==MF_IS),got,(T)want); } }
-template<class T,int F,int L> static void kmv1(const InM<T>& in,vf::Ctx& c){ glm::vec<L,T,glm::highp> x(0),m(1); for(int i=0;i<L;i++){ if(!m_dom<T,F>(in.x[i],in.m[i])){ c.cls("out-of-domain:not-judged"); return; } x[i]=in.x[i]; m[i]=in.m[i]; }
+template<class T,int F,int L> static void kmv1(const InM<T>& in,vf::Ctx& c){ glm::vec<L,T,glm::highp> x(0),m(1); for(int i=0;i<L;i++){ if(!m_dom<T,F>(in.x[i],in.m[i])){ CLS("out-of-domain:not-judged"); return; } x[i]=in.x[i]; m[i]=in.m[i]; }
 	glm::vec<L,T,glm::highp> g=m_callvv<T,F,L>(x,m); for(int i=0;i<L;i++){ I want,alt; m_want<T,F>(in.x[i],in.m[i],want,alt); if((I)g[i]!=want && (I)g[i]!=alt){ u32 k=m_code<T,F>(in.x[i],in.m[i],(I)g[i]); if(g_thr.ok(L,0,k)) c.fail(vpre(L,0)+m_name(k,F==MF_IS),(T)g[i],(T)want); } }
-	if constexpr(F==MF_IS||F==MF_NEXT||F==MF_PREV){ for(int i=0;i<L;i++) if(!m_dom<T,F>(in.x[i],in.m[0])){ c.cls("scalar-multiple-form:out-of-domain:not-judged"); return; }
+	if constexpr(F==MF_IS||F==MF_NEXT||F==MF_PREV){ for(int i=0;i<L;i++) if(!m_dom<T,F>(in.x[i],in.m[0])){ CLS("scalar-multiple-form:out-of-domain:not-judged"); return; }
 		glm::vec<L,T,glm::highp> h=m_callvs<T,F,L>(x,in.m[0]); for(int i=0;i<L;i++){ I want,alt; m_want<T,F>(in.x[i],in.m[0],want,alt); if((I)h[i]!=want && (I)h[i]!=alt){ u32 k=m_code<T,F>(in.x[i],in.m[0],(I)h[i]); if(g_thr.ok(L,1,k)) c.fail(vpre(L,1)+m_name(k,F==MF_IS),(T)h[i],(T)want); } } } }
 template<class T,int F> static void kmv(const InM<T>& in,vf::Ctx& c){ kmv1<T,F,1>(in,c); kmv1<T,F,2>(in,c); kmv1<T,F,3>(in,c); kmv1<T,F,4>(in,c); }
 
@@ -156,18 +165,18 @@ template<class T> struct InN { T x[4]; int n[4]; };
 template<class T> static u32 n_code(T x,int n,int got,int want){ u32 p= (TI<T>::S && (I)x<0)? 8:0; if(want<0) return p|0; if(got<0) return p|1;
 	typedef typename std::make_unsigned<T>::type U; if(got>=0 && got<(int)TI<T>::B && !(((U)x>>got)&1)) return p|2; if(got>=(int)TI<T>::B) return p|2; return p|(got<want? 3:4); }
 static std::string n_name(u32 code){ static const char* N[]={"fewer-set-bits-than-n:not-minus-one","enough-set-bits:returns-minus-one","returned-position-is-not-a-set-bit","returns-an-earlier-set-bit","returns-a-later-set-bit"}; return std::string(code&8? "negative-signed:":"")+N[code&7]; }
-template<class T> static void kn(const InN<T>& in,vf::Ctx& c){ int n=in.n[0]; if(n<1||n>(int)TI<T>::B+1){ c.cls("out-of-domain:not-judged"); return; } int got=glm::findNSB(in.x[0],n), want=r_findNSB(in.x[0],n);
-	if(want<0) c.cls("fewer-set-bits-than-n");
-	if(TI<T>::S && (I)in.x[0]<0) c.cls("negative");
+template<class T> static void kn(const InN<T>& in,vf::Ctx& c){ int n=in.n[0]; if(n<1||n>(int)TI<T>::B+1){ CLS("out-of-domain:not-judged"); return; } int got=glm::findNSB(in.x[0],n), want=r_findNSB(in.x[0],n);
+	if(want<0) CLS("fewer-set-bits-than-n");
+	if(TI<T>::S && (I)in.x[0]<0) CLS("negative");
 	if(got!=want){ u32 k=n_code(in.x[0],n,got,want); if(g_thr.ok(0,0,k)) c.fail(n_name(k),got,want); } }
-template<class T,int L> static void knv1(const InN<T>& in,vf::Ctx& c){ glm::vec<L,T,glm::highp> x(0); glm::vec<L,int,glm::highp> n(1); for(int i=0;i<L;i++){ if(in.n[i]<1||in.n[i]>(int)TI<T>::B+1){ c.cls("out-of-domain:not-judged"); return; } x[i]=in.x[i]; n[i]=in.n[i]; }
+template<class T,int L> static void knv1(const InN<T>& in,vf::Ctx& c){ glm::vec<L,T,glm::highp> x(0); glm::vec<L,int,glm::highp> n(1); for(int i=0;i<L;i++){ if(in.n[i]<1||in.n[i]>(int)TI<T>::B+1){ CLS("out-of-domain:not-judged"); return; } x[i]=in.x[i]; n[i]=in.n[i]; }
 	glm::vec<L,int,glm::highp> g=glm::findNSB(x,n); for(int i=0;i<L;i++){ int w=r_findNSB(in.x[i],in.n[i]); if(g[i]!=w){ u32 k=n_code(in.x[i],in.n[i],g[i],w); if(g_thr.ok(L,0,k)) c.fail(vpre(L,0)+n_name(k),g[i],w); } } }
 template<class T> static void knv(const InN<T>& in,vf::Ctx& c){ knv1<T,1>(in,c); knv1<T,2>(in,c); knv1<T,3>(in,c); knv1<T,4>(in,c); }
 
 // ================================================================= integer log2 (gtc/integer): floor(log2(x)), x > 0
-template<class T> static void klog(const InP<T>& in,vf::Ctx& c){ if((I)in.v[0]<=0){ c.cls("out-of-domain:not-judged"); return; } I a=(I)in.v[0]; int w=0; while(((I)1<<(w+1))<=a) w++;
-	T got=glm::log2(in.v[0]); if(r_ispow2(a)) c.cls("power-input"); if((I)got!=(I)w) TFAIL(0,r_ispow2(a)?"power-input:wrong-exponent":"wrong-exponent",got,(T)w); }
-template<class T,int L> static void klogv1(const InP<T>& in,vf::Ctx& c){ glm::vec<L,T,glm::highp> v(1); for(int i=0;i<L;i++){ if((I)in.v[i]<=0){ c.cls("out-of-domain:not-judged"); return; } v[i]=in.v[i]; }
+template<class T> static void klog(const InP<T>& in,vf::Ctx& c){ if((I)in.v[0]<=0){ CLS("out-of-domain:not-judged"); return; } I a=(I)in.v[0]; int w=0; while(((I)1<<(w+1))<=a) w++;
+	T got=glm::log2(in.v[0]); if(r_ispow2(a)) CLS("power-input"); if((I)got!=(I)w) TFAIL(0,r_ispow2(a)?"power-input:wrong-exponent":"wrong-exponent",got,(T)w); }
+template<class T,int L> static void klogv1(const InP<T>& in,vf::Ctx& c){ glm::vec<L,T,glm::highp> v(1); for(int i=0;i<L;i++){ if((I)in.v[i]<=0){ CLS("out-of-domain:not-judged"); return; } v[i]=in.v[i]; }
 	glm::vec<L,T,glm::highp> g=glm::log2(v); for(int i=0;i<L;i++){ I a=(I)in.v[i]; int w=0; while(((I)1<<(w+1))<=a) w++; if((I)g[i]!=(I)w) TFAIL(L,L_(L)+":wrong-exponent",(T)g[i],(T)w); } }
 template<class T> static void klogv(const InP<T>& in,vf::Ctx& c){ klogv1<T,1>(in,c); klogv1<T,2>(in,c); klogv1<T,3>(in,c); klogv1<T,4>(in,c); }
 
@@ -218,7 +227,7 @@ template<class T,int F> static T f_call(T x,T m){ if constexpr(F==MF_CEIL) retur
 template<class T,int F,int L> static glm::vec<L,T,glm::highp> f_callv(glm::vec<L,T,glm::highp> const& x,glm::vec<L,T,glm::highp> const& m){ if constexpr(F==MF_CEIL) return glm::ceilMultiple(x,m); else if constexpr(F==MF_FLOOR) return glm::floorMultiple(x,m); else return glm::roundMultiple(x,m); }
 // returns empty string when acceptable, else the class
 template<class T,int F> static std::string f_judge(T x,T m,T got,vf::Ctx& c,long double& want){ long double f,cl; bool exact; f_ref(x,m,f,cl,exact); long double X=x,M=m,G=got; long double bound=4*uround<T>()*(fabsl(X)+M);
-	bool okf=false,okc=false; if(F==MF_FLOOR) okf=true; else if(F==MF_CEIL) okc=true; else { long double d1=X-f, d2=cl-X; if(fabsl(d1-d2)<=2*bound){ okf=okc=true; c.cls("tie-within-rounding:either-accepted"); } else if(d1<d2) okf=true; else okc=true; }
+	bool okf=false,okc=false; if(F==MF_FLOOR) okf=true; else if(F==MF_CEIL) okc=true; else { long double d1=X-f, d2=cl-X; if(fabsl(d1-d2)<=2*bound){ okf=okc=true; CLS("tie-within-rounding:either-accepted"); } else if(d1<d2) okf=true; else okc=true; }
 	want= okf? f: cl; long double e= isnan_b(got)? INFINITY : std::min(okf? fabsl(G-f):(long double)INFINITY, okc? fabsl(G-cl):(long double)INFINITY);
 	if(e<=bound){ c.ratio("err/bound(4u(|x|+m))",(double)(e/bound)); return ""; }
 	std::string p= X==0? "zero-source:" : X<0? "negative-source:" : "positive-source:"; if(exact) p+="exact-multiple:";
@@ -229,9 +238,9 @@ template<class T,int F> static std::string f_judge(T x,T m,T got,vf::Ctx& c,long
 	if(!exact && fabsl(G-cl)<=bound) return p+"returns-multiple-above";
 	if(fabsl(G-(f-M))<=bound) return p+"returns-one-multiple-too-low";
 	if(fabsl(G-(cl+M))<=bound) return p+"returns-one-multiple-too-high"; return p+"not-near-an-adjacent-multiple"; }
-template<class T,int F> static void kf(const InF<T>& in,vf::Ctx& c){ T x=in.x[0], m=in.m[0]; if(!f_dom(x,m)){ c.cls("out-of-domain:not-judged"); return; } if(x<0) c.cls("negative-source"); long double w; { long double f,cl; bool ex; f_ref(x,m,f,cl,ex); if(ex) c.cls("exact-multiple"); }
+template<class T,int F> static void kf(const InF<T>& in,vf::Ctx& c){ T x=in.x[0], m=in.m[0]; if(!f_dom(x,m)){ CLS("out-of-domain:not-judged"); return; } if(x<0) CLS("negative-source"); long double w; { long double f,cl; bool ex; f_ref(x,m,f,cl,ex); if(ex) CLS("exact-multiple"); }
 	T got=f_call<T,F>(x,m); std::string k=f_judge<T,F>(x,m,got,c,w); if(!k.empty()) TFAIL(0,k,got,(T)w); }
-template<class T,int F,int L> static void kfv1(const InF<T>& in,vf::Ctx& c){ glm::vec<L,T,glm::highp> x(0),m(1); for(int i=0;i<L;i++){ if(!f_dom(in.x[i],in.m[i])){ c.cls("out-of-domain:not-judged"); return; } x[i]=in.x[i]; m[i]=in.m[i]; }
+template<class T,int F,int L> static void kfv1(const InF<T>& in,vf::Ctx& c){ glm::vec<L,T,glm::highp> x(0),m(1); for(int i=0;i<L;i++){ if(!f_dom(in.x[i],in.m[i])){ CLS("out-of-domain:not-judged"); return; } x[i]=in.x[i]; m[i]=in.m[i]; }
 	glm::vec<L,T,glm::highp> g=f_callv<T,F,L>(x,m); for(int i=0;i<L;i++){ long double w; std::string k=f_judge<T,F>(in.x[i],in.m[i],(T)g[i],c,w); if(!k.empty()) TFAIL(L,L_(L)+":"+k,(T)g[i],(T)w); } }
 template<class T,int F> static void kfv(const InF<T>& in,vf::Ctx& c){ kfv1<T,F,1>(in,c); kfv1<T,F,2>(in,c); kfv1<T,F,3>(in,c); kfv1<T,F,4>(in,c); }
 #define DEF_F(T,TN,F) \
@@ -246,26 +255,26 @@ DEF_F(float,f32,"f") DEF_F(double,f64,"d")
 #if PART(5)
 struct InPowI { i32 x; u32 y; }; struct InPowU { u32 x; u32 y; }; struct InI1 { i32 x; }; struct InU1 { u32 x; }; struct InModI { i32 x,y; }; struct InModU { u32 x,y; };
 static bool pow_exact(I x,u32 y,I lo,I hi,I& r){ r=1; for(u32 i=0;i<y;i++){ r*=x; if(r<lo||r>hi) return false; } return true; }   // false: not representable
-VF_OP(pow_int, InPowI, "iu"){ I w; if(in.y>4096 || !pow_exact(in.x,in.y,TI<i32>::lo(),TI<i32>::hi(),w)){ c.cls("out-of-domain:not-judged"); return; } if(in.y==0) c.cls("exponent=0"); if(in.x<0) c.cls("negative-base");
+VF_OP(pow_int, InPowI, "iu"){ I w; if(in.y>4096 || !pow_exact(in.x,in.y,TI<i32>::lo(),TI<i32>::hi(),w)){ CLS("out-of-domain:not-judged"); return; } if(in.y==0) CLS("exponent=0"); if(in.x<0) CLS("negative-base");
 	int got=glm::pow(in.x,(glm::uint)in.y); if((I)got!=w) TFAIL(0,in.y==0? (in.x<0? "negative-base:exponent=0:returns-minus-one":"exponent=0:not-one") : (in.x<0? "negative-base:wrong-value":"wrong-value"),got,(int)w); }
-VF_OP(pow_uint, InPowU, "uu"){ I w; if(in.y>4096 || !pow_exact(in.x,in.y,0,TI<u32>::hi(),w)){ c.cls("out-of-domain:not-judged"); return; } if(in.y==0) c.cls("exponent=0");
+VF_OP(pow_uint, InPowU, "uu"){ I w; if(in.y>4096 || !pow_exact(in.x,in.y,0,TI<u32>::hi(),w)){ CLS("out-of-domain:not-judged"); return; } if(in.y==0) CLS("exponent=0");
 	glm::uint got=glm::pow((glm::uint)in.x,(glm::uint)in.y); if((I)got!=w) TFAIL(0,in.y==0? "exponent=0:not-one":"wrong-value",got,(u32)w); }
 static u64 r_isqrt(u64 x){ u64 r=(u64)std::sqrt((double)x); while(r*r>x) r--; while((r+1)*(r+1)<=x) r++; return r; }
-VF_OP(sqrt_int, InI1, "i"){ if(in.x<0){ c.cls("out-of-domain:not-judged"); return; } int got=glm::sqrt(in.x); int w=(int)r_isqrt((u64)in.x); bool sq=(u64)w*(u64)w==(u64)in.x; if(sq) c.cls("perfect-square");
+VF_OP(sqrt_int, InI1, "i"){ if(in.x<0){ CLS("out-of-domain:not-judged"); return; } int got=glm::sqrt(in.x); int w=(int)r_isqrt((u64)in.x); bool sq=(u64)w*(u64)w==(u64)in.x; if(sq) CLS("perfect-square");
 	if(got!=w) TFAIL(0,std::string(sq?"perfect-square:":"")+(got==w+1?"returns-floor+1": got==w-1?"returns-floor-1":"wrong-root"),got,w); }
-VF_OP(sqrt_uint, InU1, "u"){ glm::uint got=glm::sqrt((glm::uint)in.x); u32 w=(u32)r_isqrt(in.x); bool sq=(u64)w*(u64)w==(u64)in.x; if(sq) c.cls("perfect-square");
+VF_OP(sqrt_uint, InU1, "u"){ glm::uint got=glm::sqrt((glm::uint)in.x); u32 w=(u32)r_isqrt(in.x); bool sq=(u64)w*(u64)w==(u64)in.x; if(sq) CLS("perfect-square");
 	if(got!=w) TFAIL(0,std::string(sq?"perfect-square:":"")+(got==w+1?"returns-floor+1": got==w-1?"returns-floor-1":"wrong-root"),got,w); }
 // mod: documented as x - y*floor(x/y); y != 0; (INT_MIN,-1) excluded (the quotient does not exist in int: hardware trap)
-VF_OP(mod_int, InModI, "ii"){ if(in.y==0 || (in.x==INT32_MIN && in.y==-1)){ c.cls("out-of-domain:not-judged"); return; } I X=in.x,Y=in.y; I q=X/Y; if((X%Y!=0) && ((X<0)!=(Y<0))) q-=1; I w=X-Y*q;
-	if(in.x<0) c.cls("negative-dividend");
-	if(in.y<0) c.cls("negative-divisor");
+VF_OP(mod_int, InModI, "ii"){ if(in.y==0 || (in.x==INT32_MIN && in.y==-1)){ CLS("out-of-domain:not-judged"); return; } I X=in.x,Y=in.y; I q=X/Y; if((X%Y!=0) && ((X<0)!=(Y<0))) q-=1; I w=X-Y*q;
+	if(in.x<0) CLS("negative-dividend");
+	if(in.y<0) CLS("negative-divisor");
 	I ay= Y<0? -Y:Y;
-	if(ay>((I)1<<30)) c.cls("abs(divisor)>2^30");
+	if(ay>((I)1<<30)) CLS("abs(divisor)>2^30");
 	int got=glm::mod(in.x,in.y); if((I)got!=w) TFAIL(0,ay>((I)1<<30)? std::string("abs(divisor)>2^30:(x%y)+y-overflows:wrong-remainder") : std::string(in.y<0?"negative-divisor:":"")+(in.x<0?"negative-dividend:":"")+"wrong-remainder",got,(int)w); }
-VF_OP(mod_uint, InModU, "uu"){ if(in.y==0){ c.cls("out-of-domain:not-judged"); return; } glm::uint got=glm::mod((glm::uint)in.x,(glm::uint)in.y); u32 w=(u32)((u64)in.x%(u64)in.y); if(got!=w) TFAIL(0,"wrong-remainder",got,w); }
+VF_OP(mod_uint, InModU, "uu"){ if(in.y==0){ CLS("out-of-domain:not-judged"); return; } glm::uint got=glm::mod((glm::uint)in.x,(glm::uint)in.y); u32 w=(u32)((u64)in.x%(u64)in.y); if(got!=w) TFAIL(0,"wrong-remainder",got,w); }
 template<class T> static bool fact_exact(I n,I& r){ r=1; for(I k=2;k<=n;k++){ r*=k; if(r>TI<T>::hi()) return false; } return true; }
-template<class T> static void kfact(const InP<T>& in,vf::Ctx& c){ I w; if((I)in.v[0]<0 || (I)in.v[0]>25 || !fact_exact<T>((I)in.v[0],w)){ c.cls("out-of-domain:not-judged"); return; } T got=glm::factorial(in.v[0]); if((I)got!=w) TFAIL(0,(I)in.v[0]<2? "n<2:not-one":"wrong-value",got,(T)w); }
-template<class T,int L> static void kfactv1(const InP<T>& in,vf::Ctx& c){ glm::vec<L,T,glm::highp> v(0); I w[4]; for(int i=0;i<L;i++){ if((I)in.v[i]<0 || (I)in.v[i]>25 || !fact_exact<T>((I)in.v[i],w[i])){ c.cls("out-of-domain:not-judged"); return; } v[i]=in.v[i]; }
+template<class T> static void kfact(const InP<T>& in,vf::Ctx& c){ I w; if((I)in.v[0]<0 || (I)in.v[0]>25 || !fact_exact<T>((I)in.v[0],w)){ CLS("out-of-domain:not-judged"); return; } T got=glm::factorial(in.v[0]); if((I)got!=w) TFAIL(0,(I)in.v[0]<2? "n<2:not-one":"wrong-value",got,(T)w); }
+template<class T,int L> static void kfactv1(const InP<T>& in,vf::Ctx& c){ glm::vec<L,T,glm::highp> v(0); I w[4]; for(int i=0;i<L;i++){ if((I)in.v[i]<0 || (I)in.v[i]>25 || !fact_exact<T>((I)in.v[i],w[i])){ CLS("out-of-domain:not-judged"); return; } v[i]=in.v[i]; }
 	glm::vec<L,T,glm::highp> g=glm::factorial(v); for(int i=0;i<L;i++) if((I)g[i]!=w[i]) TFAIL(L,L_(L)+":wrong-value",(T)g[i],(T)w[i]); }
 template<class T> static void kfactv(const InP<T>& in,vf::Ctx& c){ kfactv1<T,2>(in,c); kfactv1<T,3>(in,c); kfactv1<T,4>(in,c); }
 VF_OP(factorial_i32, InP<i32>, "iiii"){ kfact<i32>(in,c);} VF_OP(factorial_u32, InP<u32>, "uuuu"){ kfact<u32>(in,c);} VF_OP(factorial_i64, InP<i64>, "llll"){ kfact<i64>(in,c);} VF_OP(factorial_u64, InP<u64>, "qqqq"){ kfact<u64>(in,c);}
@@ -305,7 +314,7 @@ template<class T> static void run_int_type(const char* label,vf::Op* const* PO,v
 			for(int k=0;k<NMO;k++){ if(!mdom_k<T>(k,x,m)) continue; InM<T> in{}; in.x[0]=x; in.m[0]=m; RUN(*MO[k],in);
 				if(B==8 || ((q*0x9e3779b97f4a7c15ULL)>>59)==0){ for(int j=1;j<4;j++){ in.m[j]=Ms[(mi*(j+1)+j*7)%Ms.size()]; in.x[j]=safe_m(k,(T)(x*(2*j+1)+j*0x3b),in.m[j],m); } RUN(*MV[k],in); } } } });
 	} else {
-		u64 n=vf::N(250000,25000000);
+		u64 n=vf::N(250000,8000000);
 		vf::parallel(label,[&](int t,int TT,vf::Ctx& c){
 			auto pone=[&](T x,bool vec){ for(int k=0;k<NPO;k++){ if(!pdom_k<T>(k,x)) continue; InP<T> in{}; in.v[0]=x; RUN(*PO[k],in); if(vec){ for(int j=1;j<4;j++){ T y= c.rng.coin()? PVs[c.rng.below(PVs.size())]: rnd<T>(c.rng); in.v[j]=safe_p(k,y); } RUN(*PV[k],in); } } };
 			auto mone=[&](T x,T m,bool vec){ for(int k=0;k<NMO;k++){ if(!mdom_k<T>(k,x,m)) continue; InM<T> in{}; in.x[0]=x; in.m[0]=m; RUN(*MO[k],in);
@@ -325,7 +334,7 @@ template<class T> static void run_int_type(const char* label,vf::Op* const* PO,v
 }
 
 template<class T> static void run_float_type(const char* label,vf::Op* const* FO){
-	u64 n=vf::N(300000,30000000);
+	u64 n=vf::N(300000,12000000);
 	// multiples with few mantissa bits (every k*m exactly representable) and arbitrary ones
 	std::vector<T> Ms={(T)1,(T)2,(T)3,(T)4,(T)5,(T)7,(T)10,(T)0.5,(T)0.25,(T)0.75,(T)1.5,(T)2.5,(T)0.125,(T)100,(T)1024,(T)3e-3,(T)0.1,(T)0.3,(T)(1.0/3.0),(T)3.14159265358979,(T)1e-6,(T)65536,(T)1e6,(T)6.02e11,(T)9.5367431640625e-7};
 	vf::parallel(label,[&](int t,int TT,vf::Ctx& c){
@@ -365,7 +374,7 @@ static void workload(){
 	else { vf::sweep("sqrt",(u64)1<<22,1<<12,[&](vf::Ctx& c,u64 lo,u64 hi){ for(u64 q=lo;q<hi;q++){ InU1 u{(u32)q}; RUN(sqrt_uint,u); InI1 s{(i32)q}; RUN(sqrt_int,s); } });
 		vf::sweep("sqrt",65536,256,[&](vf::Ctx& c,u64 lo,u64 hi){ for(u64 r=lo;r<hi;r++) for(int d=-1;d<=1;d++){ i64 v=(i64)(r*r)+d; if(v<0||v>0xffffffffLL) continue; InU1 u{(u32)v}; RUN(sqrt_uint,u); if(v<=INT32_MAX){ InI1 s{(i32)v}; RUN(sqrt_int,s); } } });
 		vf::note("sqrt_coverage","every value < 2^22, every r*r-1, r*r, r*r+1, lattice, random"); }
-	std::vector<u32> L32=int_lattice<u32>(); u64 n=vf::N(300000,30000000);
+	std::vector<u32> L32=int_lattice<u32>(); u64 n=vf::N(300000,12000000);
 	vf::parallel("gtxint",[&](int t,int TT,vf::Ctx& c){
 		for(size_t i=t;i<L32.size();i+=TT){ InU1 u{L32[i]}; RUN(sqrt_uint,u); if((i32)L32[i]>=0){ InI1 s{(i32)L32[i]}; RUN(sqrt_int,s); }
 			for(size_t j=0;j<L32.size();j++){ InModI mi{(i32)L32[i],(i32)L32[j]}; if(mi.y!=0 && !(mi.x==INT32_MIN&&mi.y==-1)) RUN(mod_int,mi); InModU mu{L32[i],L32[j]}; if(mu.y!=0) RUN(mod_uint,mu); } }
